@@ -188,6 +188,24 @@ Definition c07_target_sig (dynamic : bool) (s : sig) : toks :=
   | _ => print_sig s
   end.
 
+(** the signature a method has in the delegation-target trait: receiver rewritten / [__impl] inserted,
+    then the async rewrite of every generated trait *)
+Definition c07_target_sig_full (dynamic async_trait send : bool) (s : sig) : toks :=
+  if s_async s && negb async_trait then
+    match p_items (s_inputs s) with
+    | ArgRecv _ r _ _ :: rest =>
+        let args := if dynamic then p_insert 1 impl_receiver (s_inputs s)
+                    else mkP ((match r with
+                               | Some l => ArgTyped [] (PIdent false false "__impl" []) (TyRef l false impl_path_fty)
+                               | None => ArgTyped [] (PIdent false false "__impl" []) impl_path_fty
+                               end) :: rest) (p_trail (s_inputs s)) in
+        print_sig (mkSig (s_const s) false (s_unsafe s) (s_abi s) (s_name s) (s_gen s) args (s_variadic s)
+                         (Some (future_wrapper send (s_output s))))
+    | _ => print_sig (mkSig (s_const s) false (s_unsafe s) (s_abi s) (s_name s) (s_gen s) (s_inputs s) (s_variadic s)
+                            (Some (future_wrapper send (s_output s))))
+    end
+  else c07_target_sig dynamic s.
+
 Definition view_C07 (c : ctx) (items : list item) : view :=
   match x_input c, source_fns (x_input c), parts (x_input c) items with
   | InTrait h t, _, Some (GTrait tr ds im) =>
@@ -200,7 +218,11 @@ Definition view_C07 (c : ctx) (items : list item) : view :=
               let names_ok := String.eqb (t_name d) it in
               let first_ok := toks_eqb (first_param_toks (t_gen d)) [TId "EntraitT"] in
               let supers_ok := t_colon d && toks_eqb (print_punct (fun b => b) (pc "+") (t_supers d)) [pc "'"; TId "static"] in
-              let sigs_ok := str_list_eqb (map (fun '(_, s) => s_name s) (trait_sigs d)) (map (fun '(_, s) => s_name s) (trait_sigs t)) in
+              let sigs_ok :=
+                str_list_eqb (map (fun '(_, s) => s_name s) (trait_sigs d)) (map (fun '(_, s) => s_name s) (trait_sigs t)) &&
+                toks_list_eqb (map (fun '(_, s) => print_sig s) (trait_sigs d))
+                              (map (fun '(_, s) => c07_target_sig_full dynamic (contains_async_trait (h_attrs h))
+                                                                       (future_send (ta_opts a)) s) (trait_sigs t)) in
               let selector_ok :=
                 match ta_delegate a, rest with
                 | Some (ByTrait del), [sel] =>
@@ -431,6 +453,39 @@ Definition c03_one (no_deps : bool) (trait_params : list gparam) (src out : sig)
                 (map print_gparam (filter is_life (p_items (g_params (s_gen out))))) &&
   forallb (fun p => negb (str_mem (gp_name p) (gparam_names trait_params)) || is_life p) (p_items (g_params (s_gen out))) .
 
+(** a where predicate that bounds the dependency generic itself: it becomes a bound of the impl *)
+Definition is_deps_pred (no_deps : bool) (src : sig) (w : wpred) : bool :=
+  match deps_kind no_deps src with
+  | DGeneric (Some n) _ => wp_is_type w && bounded_is_ident (wp_bounded w) n
+  | _ => false
+  end.
+
+Definition is_deps_param (no_deps : bool) (src : sig) (p : gparam) : bool :=
+  match deps_kind no_deps src, gp_kind p with
+  | DGeneric (Some n) _, GType => String.eqb (gp_name p) n
+  | _, _ => false
+  end.
+
+(** every where predicate of the source is carried by the trait or by the method (or bounds the
+    dependency); every type / const parameter other than the dependency is a parameter of the trait *)
+Definition c03_carried (no_deps : bool) (trait_params : list gparam) (trait_where : list wpred) (src out : sig) : bool :=
+  forallb (fun w => is_deps_pred no_deps src w ||
+                    existsb (toks_eqb (wp_toks w)) (map wp_toks (trait_where ++ where_items (s_gen out))))
+          (where_items (s_gen src)) &&
+  forallb (fun p => is_life p || is_deps_param no_deps src p || str_mem (gp_name p) (gparam_names trait_params))
+          (p_items (g_params (s_gen src))).
+
+Fixpoint c03_carried_all (no_deps : bool) (trait_params : list gparam) (trait_where : list wpred) (src out : list sig) : bool :=
+  match src, out with
+  | [], [] => true
+  | s :: src', o :: out' => c03_carried no_deps trait_params trait_where s o && c03_carried_all no_deps trait_params trait_where src' out'
+  | _, _ => false
+  end.
+
+(** the source declares each of its type / const parameters once (rustc rejects anything else: E0403) *)
+Definition src_generics_nodup (s : sig) : bool :=
+  nodup_str (map gp_name (filter (fun p => negb (is_life p)) (p_items (g_params (s_gen s))))).
+
 Fixpoint c03_all (no_deps : bool) (trait_params : list gparam) (src out : list sig) : bool :=
   match src, out with
   | [], [] => true
@@ -445,8 +500,13 @@ Definition view_C03 (c : ctx) (items : list item) : view :=
       | Some o =>
           let sigs := map (fun '(_, _, s, _) => s) src in
           let tparams := p_items (g_params (t_gen tr)) in
+          if negb (forallb src_generics_nodup sigs) then na
+          else
           decided (c03_all (no_deps_value o) tparams sigs (map snd (trait_sigs tr)) &&
                    c03_all (no_deps_value o) tparams sigs (map (fun '(_, s, _) => s) (impl_fns im)) &&
+                   c03_carried_all (no_deps_value o) tparams (where_items (t_gen tr)) sigs (map snd (trait_sigs tr)) &&
+                   c03_carried_all (no_deps_value o) (p_items (g_params (i_gen im))) (where_items (i_gen im)) sigs
+                                   (map (fun '(_, s, _) => s) (impl_fns im)) &&
                    nodup_str (gparam_names tparams))
                   (map (fun '(_, s) => print_sig s) (trait_sigs tr) ++ [print_generics_stored (t_gen tr); print_where (g_where (t_gen tr))])
       | None => na
